@@ -1,0 +1,5 @@
+//go:build !verif
+
+package discovery
+
+func verifPoint(string) {}
